@@ -181,6 +181,73 @@ def run(tier):
                                        "method": method, "n": n, "printed_line": rows[gi]["raw"], "reported": sv, "exact": want})
                     else:
                         n_ok += 1
+    # ---- per-instance for-all-n chain of the recurrence method (Polar.Sens.sens_pruned_sound / sens_unique / aug_solution_is_derivative):
+    #   delta rows = formal derivative of the moment rows up to justified pruning  ∧  delta initial values = derivative of the initial
+    #   values  ∧  reported closed form solves the augmented linear system for all n (window validator)
+    #   ⇒  reported sensitivity(n) = d/dp E(M)(n) for all n (moment rows themselves: C03's V2)
+    chain_jobs = [(c, p) for c, p in jobs][: (40 if quick else 400)]
+    ctasks = [{"fn": "harness.tasks.sens:sens_chain",
+               "args": {"text": c["text_used"], "goal": [[x, k] for x, k in c["goals"][0]], "param": p, "subs": polar_subs(c)}}
+              for c, p in chain_jobs]
+    couts = run_tasks(ctasks, timeout=80 if quick else 240, progress=None) if lean_ok else []
+    creqs, cmeta = [], []
+    for (c, p), out in zip(chain_jobs, couts):
+        if out["status"] != "ok":
+            chk.count("chain:" + out["status"])
+            continue
+        res = out["result"]
+        if not res.get("accepted") or "chain_error" in res:
+            chk.count("chain:refused")
+            continue
+        if res["problems"]:
+            chk.count("chain:LINK-FAILED(system)")
+            chk.violation(f"sensitivity recurrences for d/d{p} E({c['goals'][0]}) are not the derivative of the moment recurrences: "
+                          + res["problems"][0],
+                          {"case": pipeline.case_to_json(c), "text": c["text_used"], "param": p, "goal": c["goals"][0],
+                           "problems": res["problems"], "monomials": res.get("monomials"),
+                           "how": "harness.tasks.sens:sens_chain (product rule on RecBuilder's rows vs DiffRecBuilder's rows)"})
+            continue
+        cl = res.get("closed") or {}
+        A, v0 = res.get("matrix"), res.get("init_vector")
+        if not cl or not cl.get("exact") or A is None or any(x is None for rw in A for x in rw) or any(x is None for x in v0):
+            chk.count("chain:closed-form-or-matrix-unavailable")
+            continue
+        n0 = max(cl["max_case"] + 1, 0)
+        basereq = {"op": "cfinite_check", "A": A, "v": v0, "i": cl["index"], "n0": n0}
+        if cl.get("terms") is not None:
+            req = dict(basereq, terms=cl["terms"])
+        elif cl.get("terms_qd") is not None:
+            req = dict(basereq, terms=cl["terms_qd"], D=cl["D"])
+        elif cl.get("degs") and all(t == "q" for t, _ in cl["values"]) and n0 + len(A) + sum(cl["degs"]) <= len(cl["values"]):
+            W = len(A) + sum(cl["degs"])
+            req = dict(basereq, values=[x for _, x in cl["values"][n0:n0 + W]], degs=cl["degs"])
+        else:
+            chk.count("chain:closed-form-shape-unavailable")
+            continue
+        creqs += [req, {"op": "matpow_seq", "A": A, "v": v0, "nmax": max(n0, 1)}]
+        cmeta.append((c, p, res))
+    cans = model_batch_parallel(creqs, timeout=60) if creqs else []
+    n_chain = 0
+    for k, (c, p, res) in enumerate(cmeta):
+        a_cf, a_seq = cans[2 * k], cans[2 * k + 1]
+        if not (a_cf.get("ok") and a_seq.get("ok")):
+            chk.count("chain:model-refused")
+            continue
+        cl = res["closed"]
+        n0 = max(cl["max_case"] + 1, 0)
+        special_ok = all(cl["values"][n][0] == "q" and Fr(cl["values"][n][1]) == Fr(a_seq["seq"][n][cl["index"]])
+                         for n in range(min(n0, len(a_seq["seq"]), len(cl["values"]))))
+        if a_cf.get("agree") and special_ok:
+            n_chain += 1
+            chk.count("chain:sensitivity-proved-for-all-n")
+        else:
+            chk.count("chain:LINK-FAILED(closed-form)")
+            chk.violation(f"sensitivity closed form for d/d{p} E({c['goals'][0]}) does not solve the sensitivity recurrences "
+                          f"(general solution: {a_cf.get('agree')}, first bad n: {a_cf.get('first_bad')}; special cases: {special_ok})",
+                          {"case": pipeline.case_to_json(c), "text": c["text_used"], "param": p, "goal": c["goals"][0],
+                           "closed_form": cl.get("str"), "matrix": res["matrix"], "init_vector": res["init_vector"], "cfinite": a_cf})
+    chk.obligation("validator-chain:sensitivities-proved-for-all-n", lean_ok and (n_chain > 0 or not cmeta),
+                   {"instances": n_chain, "of": len(cmeta)})
     chk.obligation("correspondence:sensitivities-vs-exact-derivative", lean_ok and n_ok > 0 and
                    chk.counts.get("harness-error", 0) == 0, {"method_goal_pairs_equal": n_ok})
     chk.assumptions = ["E(M)(n) is a polynomial of degree <= 10 in the parameter (verified per case by two spare points)",
